@@ -815,6 +815,11 @@ func (rl *Shell) keywordSwitch(increase bool) {
 		bpos--
 	}
 
+	// No word under the cursor (eg. at the end of the line)
+	if bpos < 0 || bpos > epos {
+		return
+	}
+
 	// Get the selection string
 	selection := string((*rl.line)[bpos:epos])
 
